@@ -243,3 +243,29 @@ class IndicatorBoundsInit(Contract):
 
     def clauses(self, P, ctx, case):
         return ACCEPTED()
+
+
+@register
+class SelectMoreThanListed(Contract):
+    """a selection of more workers than *listed* is rejected -- also when a listed element is a cumulative
+    worker (which counts for one)"""
+
+    target = "resource.SelectWorkers.__init__"
+    props = ("C18",)
+
+    def cases(self, tier):
+        return [dict(members=m) for m in (("w", "w"), ("w", "cw3"), ("cw2", "cw3"), ("w", "w", "cw2"))]
+
+    def scenario(self, ps, P, case):
+        pb = ps.SchedulingProblem(name="pb", horizon=10)
+        ws = []
+        for i, m in enumerate(case["members"]):
+            ws.append(ps.Worker(name=f"m{i}") if m == "w" else ps.CumulativeWorker(name=f"m{i}", size=int(m[2:])))
+        return dict(sw=ps.SelectWorkers(list_of_workers=ws, nb_workers_to_select=P.int("nb")))
+
+    def raises(self, P, case):
+        nb = T(P.int("nb"))
+        return [("ValidationError", nb <= 0), ("ValueError", And(nb > 0, nb > len(case["members"])))]
+
+    def clauses(self, P, ctx, case):
+        return ACCEPTED()
